@@ -71,7 +71,7 @@ def doc_pool():
     p["microdvd"] = [docs.microdvd_doc([(25, 50, "Hello|world"), (75, 100, "Bye")]), docs.microdvd_doc([(10, 20, "x")], fps="23.976")]
     head = '<styling><style xml:id="s1" tts:color="red" tts:fontStyle="italic"/><style xml:id="s2" tts:textAlign="center"/><style xml:id="s3" tts:fontWeight="bold"/></styling><layout><region xml:id="r1" tts:origin="10% 20%" tts:extent="30% 40%"/><region xml:id="r2" tts:textAlign="center" tts:displayAlign="before"/></layout>'
     p["dfxp"] = [
-        docs.dfxp_doc([("en", [('begin="1s" end="2s" region="r1" style="s1 s2 s3"', 'a<br/><span region="r2" tts:fontStyle="italic" style="s3 s1">b</span>'), ('begin="3s" dur="1s" region="r2"', "c &amp; d"), ('begin="5s" end="6s"', '<span region="r1">f</span> <span region="r2">g</span>')]), ("fr", [('begin="1s" end="2s"', "e")])], head=head),
+        docs.dfxp_doc([("en", [('begin="1s" end="2s" region="r1" style="s1 s2 s3"', 'a<br/><span region="r2" tts:fontStyle="italic" style="s3 s1">b</span>'), ('begin="3s" dur="1s" region="r2"', "c &amp; d"), ('begin="5s" end="6s"', '<span region="r1">f</span> <span region="r2">g</span>')] + [(f'begin="{7 + k}s" end="{7 + k}.5s"', f't{k} <span region="{rid}">in {rid}</span><br/><span>more</span>') for k, rid in enumerate(["r1", "r2", "top", "low", "a", "bb", "left", "zone9"])]), ("fr", [('begin="1s" end="2s"', "e")])], head=head.replace("</layout>", "".join(f'<region xml:id="{rid}" tts:origin="{5 + 3 * k}% 30%"/>' for k, rid in enumerate(["top", "low", "a", "bb", "left", "zone9"])) + "</layout>")),
         docs.dfxp_doc([("de", [('begin="5s" end="6s"', "plain")])]),
         docs.dfxp_doc([("en", [('begin="1s" end="2s"', "ok"), ('end="2s"', "no begin: reader raises")])]),
         # two documents with textually identical <region> elements whose referenced style differs, and a root extent
